@@ -231,6 +231,19 @@ CLAIMED["C07"] = dict(
     technique="Lean 4 proof (properties of the executable specification) + executable-spec oracle on the real invocations and output bytes",
     design="DESIGN.md#c07",
 )
+CLAIMED["C19"] = dict(
+    engine="E-symbols",
+    text="Lean theorems for every module and every request: after a successful deletion no table mentions a deleted "
+    "symbol (elfSymbolInfo, elfSymbolTabIdxInfo, elfSymbolVersions entries, functionNames, PE import/export lists, "
+    "symbolForwarding keys and values, CFI directives, the symbol set); personality/LSDA directives get "
+    "DW_EH_PE_omit; everything not asked for is untouched, in order; the call fails exactly when an unforced symbol "
+    "is still used and with force exactly the expressions using a forced symbol are removed; version definitions "
+    "and requirements are dropped exactly when no remaining symbol uses them, the base definition (flag bit) "
+    "always stays. Tie: RewritingContext.delete_symbol + apply() on generated ELF and PE modules against the "
+    "compiled model, plus a direct scan of the real result and a protobuf save.",
+    technique="Lean 4 proof (table-by-table characterisation of the model) + differential correspondence + direct oracle on the real output",
+    design="DESIGN.md#c19",
+)
 
 ALL = ["C%02d" % i for i in range(1, 21)]
 
@@ -274,6 +287,7 @@ def main():
             {"name": "E-adt", "path": "lean/GtirbVerif/Model/Adt", "serves_properties": ["C20", "C09"], "kind_free_text": "Lean models of ReferenceCache, ReturnEdgeCache, make_return_cache, BlockOrdering, OffsetMapping, IdentitySet with refinement proofs"},
             {"name": "E-modify", "path": "lean/GtirbVerif/Model/IR", "serves_properties": ["C01", "C02", "C03", "C04", "C05", "C06", "C07", "C08", "C09", "C11"], "kind_free_text": "abstract GTIRB IR + Lean models of edit_byte_interval, split_block, are_joinable/join_blocks, remove_block, insert, delete, _cleanup_modified_blocks, the offset loop of _apply_modifications; listing specification (Spec/Listing*.lean)"},
             {"name": "E-intervals", "path": "lean/GtirbVerif/Model/Intervals", "serves_properties": ["C10"], "kind_free_text": "Lean model of split_byte_interval / join_byte_intervals with the round-trip theorem"},
+            {"name": "E-symbols", "path": "lean/GtirbVerif/Model/Symbols", "serves_properties": ["C19", "C18"], "kind_free_text": "Lean models of delete_symbols and retarget_symbol_uses"},
             {"name": "E-dwarf", "path": "lean/GtirbVerif/Model/Dwarf", "serves_properties": ["C14", "C15"], "kind_free_text": "Lean model of dwarf/_encoders,_encodable,expr,cfi,cfi_eval + regenerated tables"},
         ],
         "checks": checks,
